@@ -118,6 +118,8 @@ class Expr:
             f = dotted(node.func)
             if isinstance(node.func, ast.Attribute) and node.func.attr in ("startswith", "endswith"):
                 return "bool"
+            if isinstance(node.func, ast.Attribute) and node.func.attr == "rstrip" and not node.args and not node.keywords:
+                return "str"
             if isinstance(node.func, ast.Name) and node.func.id in ("len", "int"):
                 return "Z"
             if f in self.calls:
@@ -246,6 +248,10 @@ class Expr:
                 if self.ty(node.func.value) != "str":
                     bail(node, "startswith on non-str")
                 return f"({f} {self.tr(node.args[0])} {self.tr(node.func.value)})"
+            if isinstance(node.func, ast.Attribute) and node.func.attr == "rstrip" and not node.args and not node.keywords:
+                if self.ty(node.func.value) != "str":
+                    bail(node, "rstrip on non-str")
+                return f"(rstrip {self.tr(node.func.value)})"
             if isinstance(node.func, ast.Name) and node.func.id == "len" and len(node.args) == 1:
                 if self.ty(node.args[0]) == "list":
                     a = self.atom(node.args[0])
